@@ -7,7 +7,8 @@ LEAN_TARGETS = ["Eliot.Properties.C02"]
 AUDIT = "Eliot/Audit/C02.lean"
 SKELETON_TARGETS = {"Sys.C02.skeleton_E6_order": "Eliot.Properties.C02Skel"}
 THEOREMS = ["Sys.C02.inv_preserved", "Sys.C02.reachable_inv", "Sys.C02.positions_contiguous", "Sys.C02.levels_unique",
-            "Sys.C02.actions_unique", "Sys.C02.child_extends_parent", "Sys.C02.reserved_position_unique", "Sys.C02.message_at_slot"]
+            "Sys.C02.actions_unique", "Sys.C02.child_extends_parent", "Sys.C02.reserved_position_unique", "Sys.C02.message_at_slot",
+            "Sys.C02.offered_places_unique", "Sys.C02.offered_at_handed_out_places", "Sys.C02.buffered_at_handed_out_places"]
 RULE = ("programs of the core language (no failing field serializers, as the property states) with 2-4 destinations and failure masks on "
         "all but one of them; (a) structured batch (with-blocks, tasks, try/except, tracebacks, extractors that raise, remote continuation "
         "of every reserved id) checked for uniqueness, contiguity 1..n, start at 1, end at n, emission order = level order on the healthy "
